@@ -15,6 +15,11 @@ from .. import dec
 
 PROP = "C09"
 ORDERED = ("number", "string", "date")          # the kinds the statement names for trichotomy / between / in
+# the other kinds FEEL orders (the "dates" of the statement in the wide sense: times, date-times, durations). Two values of one of these
+# kinds may be incomparable (a local time against one with an offset: the comparison is null), so the laws of an ordered kind are asserted
+# for them only between results that ARE booleans: when <, = and > all answered, exactly one of them is true; <= is (< or =) in
+# three-valued logic; between / in / conjunction agree when both conjuncts answered.
+EXT_ORDERED = ("time", "dt", "dtd", "ymd")
 EQ_COMPARABLE = ("boolean", "number", "string", "date", "time", "dt", "dtd", "ymd", "list", "context")
 
 # (label, kind, binding)
@@ -32,6 +37,7 @@ ALPHABET = [
     ("23:59:59.999999999", "time", {"time": "23:59:59.999999999"}),
     ("2020-01-01T10:00:00", "dt", {"dt": "2020-01-01T10:00:00"}), ("2020-01-01T10:00:00Z", "dt", {"dt": "2020-01-01T10:00:00Z"}),
     ("2020-01-01T11:00:00+01:00", "dt", {"dt": "2020-01-01T11:00:00+01:00"}),
+    ("2020-01-02T00:00:00+14:00", "dt", {"dt": "2020-01-02T00:00:00+14:00"}), ("2019-12-31T22:00:00-12:00", "dt", {"dt": "2019-12-31T22:00:00-12:00"}),
     ("P1D", "dtd", {"dtd": "P1D"}), ("PT24H", "dtd", {"dtd": "PT24H"}), ("P2D", "dtd", {"dtd": "P2D"}), ("-P1D", "dtd", {"dtd": "-P1D"}),
     ("P1Y", "ymd", {"ymd": "P1Y"}), ("P12M", "ymd", {"ymd": "P12M"}), ("P2Y", "ymd", {"ymd": "P2Y"}),
     ("[]", "list", {"l": []}), ("[1]", "list", {"l": [{"n": "1"}]}), ("[1,2]", "list", {"l": [{"n": "1"}, {"n": "2"}]}), ("[null]", "list", {"l": [None]}),
@@ -150,16 +156,22 @@ def judge_pair(ctx, case, resp):
     bwd = dict(zip(PAIR_OPS, r[8:]))
     sx, sy = show_binding(bx), show_binding(by)
     same_ordered = kx == ky and kx in ORDERED
+    same_ext = kx == ky and kx in EXT_ORDERED
     labels = ["pair", "kinds:%s/%s" % (kx, ky) if kx <= ky else "kinds:%s/%s" % (ky, kx)]
     if same_ordered:
         labels.append("ordered-kind:" + kx)
         labels.append("order:" + ("=" if fwd["="] is True else "<" if fwd["<"] is True else ">" if fwd[">"] is True else "none"))
+    elif same_ext:
+        answered = all(isinstance(fwd[o], bool) for o in ("<", "=", ">"))
+        labels.append("ext-ordered-kind:%s:%s" % (kx, ("=" if fwd["="] is True else "<" if fwd["<"] is True else ">" if fwd[">"] is True else "none") if answered else "incomparable"))
+        if answered and fwd["="] is True and bx != by:
+            labels.append("equal-value-different-spelling:" + kx)
     elif kx == ky:
         labels.append("same-unasserted-kind:" + kx)
     equal_diff_scale = kx == ky == "number" and fwd["="] is True and bx != by
     if equal_diff_scale:
         labels.append("equal-value-different-scale")
-    nontrivial = kx != ky or kx == "null" or equal_diff_scale or (kx == ky and bx == by)
+    nontrivial = kx != ky or kx == "null" or equal_diff_scale or (kx == ky and bx == by) or (same_ext and fwd["="] is True)
     ctx.note(key=["pair", sx, sy], nontrivial=nontrivial, labels=labels,
              sample={"x": sx, "y": sy, "x?y": dict((o, sh(fwd[o])) for o in PAIR_OPS), "y?x": dict((o, sh(bwd[o])) for o in PAIR_OPS)})
 
@@ -210,6 +222,15 @@ def judge_pair(ctx, case, resp):
                 return fail("C09/le-not-lt-or-eq", "(a <= b) == (a < b or a = b)", "%s: <= %s, < %s, = %s" % (name, sh(d["<="]), sh(d["<"]), sh(d["="])))
             if d[">="] is not or3(d[">"], d["="]):
                 return fail("C09/ge-not-gt-or-eq", "(a >= b) == (a > b or a = b)", "%s: >= %s, > %s, = %s" % (name, sh(d[">="]), sh(d[">"]), sh(d["="])))
+    if same_ext:
+        for d, name in ((fwd, "x?y"), (bwd, "y?x")):
+            trio = (d["<"], d["="], d[">"])
+            if all(isinstance(t, bool) for t in trio) and sum(1 for t in trio if t) != 1:
+                return fail("C09/trichotomy/" + kx, "exactly one of a<b, a=b, a>b is true (all three answered)", "%s: < %s, = %s, > %s" % (name, sh(trio[0]), sh(trio[1]), sh(trio[2])))
+            if d["<="] is not or3(d["<"], d["="]):
+                return fail("C09/le-not-lt-or-eq/" + kx, "(a <= b) == (a < b or a = b)", "%s: <= %s, < %s, = %s" % (name, sh(d["<="]), sh(d["<"]), sh(d["="])))
+            if d[">="] is not or3(d[">"], d["="]):
+                return fail("C09/ge-not-gt-or-eq/" + kx, "(a >= b) == (a > b or a = b)", "%s: >= %s, > %s, = %s" % (name, sh(d[">="]), sh(d[">"]), sh(d["="])))
     return None
 
 
@@ -230,8 +251,9 @@ def judge_triple(ctx, case, resp):
     d = dict(zip(TRIPLE_FORMS, r))
     sx, sa, sb = show_binding(bx), show_binding(ba), show_binding(bb)
     asserted = kinds[0] == kinds[1] == kinds[2] and kinds[0] in ORDERED
+    ext = kinds[0] == kinds[1] == kinds[2] and kinds[0] in EXT_ORDERED
     on_bound = asserted and (bx == ba or bx == bb or d["a <= x"] is True and d["a < x"] is False or d["x <= b"] is True and d["x < b"] is False)
-    labels = ["triple", ("triple-kind:" + kinds[0]) if asserted else ("triple-unasserted:" + ("same-kind:" + kinds[0] if len(set(kinds)) == 1 else "mixed"))]
+    labels = ["triple", ("triple-kind:" + kinds[0]) if asserted else ("triple-ext-kind:" + kinds[0]) if ext else ("triple-unasserted:" + ("same-kind:" + kinds[0] if len(set(kinds)) == 1 else "mixed"))]
     if asserted:
         labels.append("x-on-a-bound" if on_bound else ("x-inside" if d["x between a and b"] is True else "x-outside-or-empty"))
     ctx.note(key=["triple", sx, sa, sb], nontrivial=bool(on_bound) or not asserted, labels=labels,
@@ -239,7 +261,7 @@ def judge_triple(ctx, case, resp):
     for f in TRIPLE_FORMS:
         if isinstance(d[f], tuple):
             return Fail("C09/non-boolean-result", "x = %s, a = %s, b = %s: %s = %s (neither boolean nor null)" % (sx, sa, sb, f, sh(d[f])))
-    if not asserted:
+    if not asserted and not ext:
         return None            # the statement speaks about values of one ordered kind only: evaluated, not compared
 
     def fail(law, detail, form):
@@ -254,6 +276,8 @@ def judge_triple(ctx, case, resp):
              ("x in [a..b)", "a <= x and x < b", "a <= x", "x < b"),
              ("x in (a..b)", "a < x and x < b", "a < x", "x < b"))
     for form, conj, left, right in pairs:
+        if ext and not (isinstance(d[left], bool) and isinstance(d[right], bool)):
+            continue           # incomparable operands (local against zoned): nothing is asserted
         if d[conj] is not and3(d[left], d[right]):
             return Fail("C09/and-table", "x = %s, a = %s, b = %s: %s = %s but %s = %s and %s = %s" % (
                 sx, sa, sb, conj, sh(d[conj]), left, sh(d[left]), right, sh(d[right])))
@@ -449,6 +473,170 @@ def gen_rand_triple(src):
     return {"k": [kind] * 3, "v": [x, a, b]}
 
 
+
+# ------------------------------------------------------------------------------------------------
+# random values of the other ordered kinds (times, date-times, durations): instants and lengths written in several ways
+# ------------------------------------------------------------------------------------------------
+
+import datetime as _dtm
+
+OFFSETS = [0, 3600, -3600, 14 * 3600, -12 * 3600, -14 * 3600, 12 * 3600, 5 * 3600 + 1800, -(9 * 3600 + 1800), 14 * 3600 + 59 * 60 + 59, -(14 * 3600 + 59 * 60 + 59), 1, -1, 59, 45 * 60]
+FIXED_ZONES = [("Etc/GMT+12", -12 * 3600), ("Pacific/Kiritimati", 14 * 3600), ("Asia/Tokyo", 9 * 3600), ("Asia/Kolkata", 5 * 3600 + 1800), ("UTC", 0), ("Etc/GMT-14", 14 * 3600)]
+FRACTIONS = [0, 0, 0, 1, 999999999, 500000000, 1000, 123456789]
+
+
+def _off_text(off):
+    if off == 0:
+        return "Z"
+    a = abs(off)
+    t = "%s%02d:%02d" % ("+" if off > 0 else "-", a // 3600, a % 3600 // 60)
+    return t + (":%02d" % (a % 60) if a % 60 else "")
+
+
+def _frac(ns):
+    return ("." + ("%09d" % ns).rstrip("0")) if ns else ""
+
+
+def _dt_render(src, secs, ns):
+    """the instant `secs` seconds (+ ns) after 2000-01-01T00:00:00Z written with a numeric offset, Z, or a zone without clock changes."""
+    how = src.weighted([(5, "offset"), (2, "zone"), (1, "z")])
+    if how == "zone":
+        zone, off = src.choice(FIXED_ZONES)
+        tail = "@" + zone
+    elif how == "z":
+        off, tail = 0, "Z"
+    else:
+        off = src.choice(OFFSETS)
+        tail = _off_text(off)
+    local = _dtm.datetime(2000, 1, 1) + _dtm.timedelta(seconds=secs + off)
+    return {"dt": local.strftime("%Y-%m-%dT%H:%M:%S") + _frac(ns) + tail}, secs, ns
+
+
+def gen_dt_pool(src, n):
+    """n date-times: new instants, and earlier instants again (written another way, or moved by a nanosecond / second / day)."""
+    inst = []
+    out = []
+    while len(out) < n:
+        if inst and src.bool(0.65):
+            secs, ns = src.choice(inst)
+            how = src.weighted([(5, "same"), (1, "ns"), (1, "sec"), (1, "day"), (1, "2days")])
+            if how == "ns":
+                ns = ns + 1 if ns < 999999999 else ns - 1
+            elif how == "sec":
+                secs += src.choice([1, -1])
+            elif how == "day":
+                secs += 86400 * src.choice([1, -1])
+            elif how == "2days":
+                secs += 2 * 86400 * src.choice([1, -1])
+        else:
+            # close to midnight UTC in a good share of the cases: then the written dates of one instant differ by up to two days
+            day = src.int(-3000, 12000)
+            sod = src.weighted([(2, None), (1, 0), (1, 86399), (1, 43200), (1, 36000), (1, 79200)])
+            sod = src.int(0, 86399) if sod is None else sod
+            secs, ns = day * 86400 + sod, src.choice(FRACTIONS)
+        b, secs, ns = _dt_render(src, secs, ns)
+        inst.append((secs, ns))
+        out.append(b)
+    return out
+
+
+def gen_time_pool(src, n):
+    inst = []
+    out = []
+    while len(out) < n:
+        if inst and src.bool(0.6):
+            sod, ns = src.choice(inst)
+            if src.bool(0.3):
+                sod = (sod + src.choice([1, -1])) % 86400
+        else:
+            sod, ns = src.weighted([(3, None), (1, 0), (1, 86399)]), src.choice(FRACTIONS)
+            sod = src.int(0, 86399) if sod is None else sod
+        inst.append((sod, ns))
+        off = src.choice(OFFSETS)
+        loc = (sod + off) % 86400
+        out.append({"time": "%02d:%02d:%02d" % (loc // 3600, loc % 3600 // 60, loc % 60) + _frac(ns) + _off_text(off)})
+    return out
+
+
+def _dtd_text(src, total_ns):
+    """a days-and-time duration of total_ns nanoseconds, its fields split in one of several valid ways."""
+    sign = "-" if total_ns < 0 else ""
+    t = abs(total_ns)
+    ns, secs = t % 10 ** 9, t // 10 ** 9
+    how = src.weighted([(3, "norm"), (2, "hours"), (2, "seconds"), (1, "minutes"), (1, "days-seconds")])
+    fr = _frac(ns)
+    if how == "seconds":
+        return "%sPT%d%sS" % (sign, secs, fr)
+    if how == "hours":
+        return "%sPT%dH%dM%d%sS" % (sign, secs // 3600, secs % 3600 // 60, secs % 60, fr)
+    if how == "minutes":
+        return "%sPT%dM%d%sS" % (sign, secs // 60, secs % 60, fr)
+    if how == "days-seconds":
+        return "%sP%dDT%d%sS" % (sign, secs // 86400, secs % 86400, fr)
+    d, h, m, sec = secs // 86400, secs % 86400 // 3600, secs % 3600 // 60, secs % 60
+    txt = "P" + ("%dD" % d if d else "")
+    tt = ("%dH" % h if h else "") + ("%dM" % m if m else "") + ("%d%sS" % (sec, fr) if (sec or ns) else "")
+    if tt:
+        txt += "T" + tt
+    if txt == "P":
+        txt = "PT0S"
+    return sign + txt
+
+
+def gen_dtd_pool(src, n):
+    vals = []
+    out = []
+    while len(out) < n:
+        if vals and src.bool(0.6):
+            v = src.choice(vals)
+            how = src.weighted([(4, "same"), (1, "ns"), (1, "neg"), (1, "sec")])
+            v = v + src.choice([1, -1]) if how == "ns" else -v if how == "neg" else v + 10 ** 9 * src.choice([1, -1]) if how == "sec" else v
+        else:
+            unit = src.choice([1, 10 ** 9, 60 * 10 ** 9, 3600 * 10 ** 9, 86400 * 10 ** 9])
+            v = src.int(-400, 400) * unit + src.choice([0, 0, 1, -1, 500000000])
+        vals.append(v)
+        out.append({"dtd": _dtd_text(src, v)})
+    return out
+
+
+def gen_ymd_pool(src, n):
+    vals = []
+    out = []
+    while len(out) < n:
+        if vals and src.bool(0.6):
+            v = src.choice(vals)
+            v = src.weighted([(4, v), (1, v + 1), (1, v - 1), (1, -v), (1, v + 12)])
+        else:
+            v = src.weighted([(3, None), (1, 0), (1, 12), (1, 11)])
+            v = src.int(-3000, 3000) if v is None else v
+        vals.append(v)
+        sign, a = ("-" if v < 0 else ""), abs(v)
+        how = src.weighted([(3, "norm"), (2, "months"), (1, "both")])
+        if how == "months":
+            t = "P%dM" % a
+        elif how == "both":
+            t = "P%dY%dM" % (a // 12, a % 12)
+        else:
+            t = "P" + ("%dY" % (a // 12) if a // 12 else "") + ("%dM" % (a % 12) if a % 12 or not a // 12 else "")
+        out.append({"ymd": sign + t})
+    return out
+
+
+EXT_POOL = {"dt": gen_dt_pool, "time": gen_time_pool, "dtd": gen_dtd_pool, "ymd": gen_ymd_pool}
+
+
+def gen_ext_pair(src):
+    kind = src.choice(EXT_ORDERED)
+    p = EXT_POOL[kind](src, 2)
+    return {"k": [kind, kind], "v": [p[0], p[1]]}
+
+
+def gen_ext_triple(src):
+    kind = src.choice(EXT_ORDERED)
+    p = EXT_POOL[kind](src, 3)
+    x = src.weighted([(6, p[0]), (2, p[1]), (2, p[2])])
+    return {"k": [kind] * 3, "v": [x, p[1], p[2]]}
+
 # ------------------------------------------------------------------------------------------------
 # enumerations
 # ------------------------------------------------------------------------------------------------
@@ -490,14 +678,18 @@ def setup(ctx):
                 "mixed alphabet's triples (not of one ordered kind: evaluated, not compared). Random: pools of related numbers (same value/other scale, "
                 "neighbours), strings, dates. non-trivial: pair of different kinds, or containing null, or equal-value/different-scale, or identical "
                 "operands; triple with x on a bound, or not of one ordered kind; distinct by (law family, operands)" % (len(ALPHABET), len(MIXED)))
-    ctx.assumptions = ["trichotomy, <= == (< or =) and the between/in/conjunction agreement are asserted for numbers, strings and dates only, as the "
-                       "statement names them; for times, date-times and durations only the laws stated for all values are asserted",
+    ctx.assumptions = ["trichotomy, <= == (< or =) and the between/in/conjunction agreement are asserted unconditionally for numbers, strings and dates, "
+                       "as the statement names them; for times, date-times and durations (ordered kinds of FEEL whose values can be incomparable: local "
+                       "against zoned) the same laws are asserted between the comparison results that are booleans (parts ext-pairs, ext-triples: one "
+                       "instant / length written with several offsets, zones without clock changes, field splits)",
                        "local times (no offset) are compared by the SUT with the machine's offset; both sides of a law see the same offset"]
     ctx.p_pair = ctx.register(Part("pairs", None, reqs_pair, judge_pair))
     ctx.p_triple = ctx.register(Part("triples", None, reqs_triple, judge_triple))
     ctx.p_rpair = ctx.register(Part("random-pairs", gen_rand_pair, reqs_pair, judge_pair))
     ctx.p_rtriple = ctx.register(Part("random-triples", gen_rand_triple, reqs_triple, judge_triple))
     ctx.p_dst = ctx.register(Part("dst-pairs", gen_dst_pair, reqs_pair, judge_pair))
+    ctx.p_xpair = ctx.register(Part("ext-pairs", gen_ext_pair, reqs_pair, judge_pair))
+    ctx.p_xtriple = ctx.register(Part("ext-triples", gen_ext_triple, reqs_triple, judge_triple))
 
 
 def run(ctx):
@@ -508,6 +700,8 @@ def run(ctx):
     ctx.forall(ctx.p_rpair, ctx.scale(50000, 6000000), batch=400)
     ctx.forall(ctx.p_rtriple, ctx.scale(50000, 6000000), batch=400)
     ctx.forall(ctx.p_dst, ctx.scale(12000, 1200000), batch=400)
+    ctx.forall(ctx.p_xpair, ctx.scale(40000, 4000000), batch=400)
+    ctx.forall(ctx.p_xtriple, ctx.scale(20000, 2000000), batch=400)
 
 
 if __name__ == "__main__":
